@@ -490,6 +490,30 @@ TRUSTED_BASE = [
 ]
 
 
+def coqchk_stage(prop):
+    """thorough tier: re-check the compiled property file and everything it depends on with the
+    independent checker; returns dict(ok, summary, log)"""
+    rc, out = run(["coqchk", "-o", "-silent", "-Q", "theories", "Rocfl", "Rocfl.Props.%s" % prop], cwd=COQ, timeout=3000)
+    summ = {}
+    m = re.search(r"CONTEXT SUMMARY\n=+\n(.*)$", out, re.S)
+    if m:
+        for blk in re.split(r"\n\* ", "\n" + m.group(1)):
+            if ":" in blk:
+                k, v = blk.split(":", 1)
+                summ[k.strip()] = " ".join(v.split())
+    ok = rc == 0 and bool(summ)
+    for k in ("Constants/Inductives relying on type-in-type", "Constants/Inductives relying on unsafe (co)fixpoints",
+              "Inductives whose positivity is assumed"):
+        if summ.get(k) != "<none>":
+            ok = False
+    ax = summ.get("Axioms", "?")
+    if ax != "<none>":
+        names = re.findall(r"([A-Za-z_][\w.']*)\s*:", ax) or [ax]
+        if any(a not in STD_AXIOM_ALLOW and a.split(".")[-1] not in STD_AXIOM_ALLOW for a in names):
+            ok = False
+    return {"ok": ok, "summary": summ, "log": out[-2000:]}
+
+
 def proof_stage(ctx):
     """common first stage of every check: forbidden-word scan + property theorems.
     A broken proof is recorded; the caller still runs correspondence and search, and
@@ -499,6 +523,13 @@ def proof_stage(ctx):
     proof["forbidden"] = bad
     if bad:
         proof["ok"] = False
+    if proof["ok"] and not ctx.quick():
+        chk = coqchk_stage(ctx.prop)
+        proof["coqchk"] = chk["summary"]
+        ctx.coverage["coqchk"] = chk["summary"]
+        if not chk["ok"]:
+            proof["ok"] = False
+            proof["log"] = "coqchk:\n" + chk["log"]
     return proof
 
 
